@@ -43,6 +43,7 @@ type Stats struct {
 	Nontrivial   int64            `json:"distinct_nontrivial"`
 	States       int64            `json:"states"`
 	Incomplete   []string         `json:"incomplete,omitempty"`
+	Unmodelled   []string         `json:"unmodelled,omitempty"`
 	Vacuous      []string         `json:"single_outcome_cases,omitempty"`
 	ByGroup      map[string]int   `json:"executions_by_group,omitempty"`
 	Extra        map[string]int64 `json:"extra,omitempty"`
@@ -177,6 +178,10 @@ func (c *Ctx) Explore(cs Case) {
 			o = inst.Outcome()
 			outcomes[o] = true
 		}
+		if dumpCases != "" && strings.Contains(cs.Name, dumpCases) {
+			// VERIF_DUMP=<substring of a case name>: one line per execution (diagnosis)
+			fmt.Fprintf(os.Stderr, "DUMP %s | %s | choices=%v | outcome=%s | blocked=%v fatal=%q crash=%v horizon=%v now=%d timersLeft=%d\n", c.Scn.ID, cs.Name, explore.ChoiceList(r), o, r.Blocked, r.Fatal, r.Crash, r.HorizonHit, r.Now, r.TimersLeft)
+		}
 		// default rule: an execution is non-trivial when its observers received at least one notification
 		if (inst.Nontrivial == nil && strings.Trim(o, " |") != "") || (inst.Nontrivial != nil && inst.Nontrivial(r)) {
 			nontriv[o] = true
@@ -207,6 +212,30 @@ func (c *Ctx) Explore(cs Case) {
 				v.Choices = explore.ChoiceList(r)
 				c.addViolation(v)
 			}
+		}
+		if r.Fatal != "" {
+			msg := strings.SplitN(r.Fatal, "\n", 2)[0]
+			if strings.HasPrefix(msg, "sync:") {
+				// what the Go runtime reports as "fatal error: sync: unlock of unlocked mutex": the process dies
+				c.addViolation(Violation{Property: c.Property, Scenario: c.Scn.ID, Case: cs.Name, Choices: explore.ChoiceList(r),
+					Signature: c.Scn.Group + "/process-fatal-error/" + strings.ReplaceAll(strings.TrimPrefix(msg, "sync: "), " ", "-"),
+					Detail:    cs.Name + ": the Go runtime would stop the process here: fatal error: " + msg})
+			} else {
+				// a limit of the scheduler model, not a verdict on the library: the driver refuses to conclude
+				if st.Extra == nil {
+					st.Extra = map[string]int64{}
+				}
+				st.Extra["unmodelled_operation"]++
+				if len(st.Unmodelled) < 5 {
+					st.Unmodelled = append(st.Unmodelled, fmt.Sprintf("%s/%s choices=%v: %s", c.Scn.ID, cs.Name, explore.ChoiceList(r), msg))
+				}
+			}
+		}
+		if r.HorizonHit {
+			if st.Extra == nil {
+				st.Extra = map[string]int64{}
+			}
+			st.Extra["executions_cut_at_horizon"]++
 		}
 		if (cs.Sample || (c.samples == 0 && o != "")) && c.samples < 3 && len(c.Rep.Samples) < 6 {
 			c.samples++
@@ -239,6 +268,8 @@ func (c *Ctx) Explore(cs Case) {
 		st.Vacuous = append(st.Vacuous, c.Scn.ID+"/"+cs.Name)
 	}
 }
+
+var dumpCases = os.Getenv("VERIF_DUMP")
 
 // Once runs a single-execution (sequential) case.
 func (c *Ctx) Once(name string, mk func() Instance) {
